@@ -84,7 +84,12 @@ def run_shard(prop: str, tier: str, seed: int, shard: int, nshards: int, replay=
     try:
         if replay is not None:
             ctx.replaying = True
-            mod.replay(ctx, replay)
+            from rv.props import concurrent_jobs
+
+            if isinstance(replay.get("spec"), dict) and replay["spec"].get("kind") == "concurrent" and prop in concurrent_jobs.JOBS:
+                concurrent_jobs.replay(ctx, prop, replay)
+            else:
+                mod.replay(ctx, replay)
         else:
             mod.run(ctx)
     except _Watchdog:
